@@ -330,6 +330,15 @@ func (x *Exec) loopModifiedRegions(fr *Frame, L *Loop) (map[string]Sort, bool) {
 				}
 				return
 			}
+			if fc := x.DB.For(fn); fc != nil && fc.AssignsAll {
+				all = true
+				return
+			}
+			if !strings.HasPrefix(pkgPathOf(fn), modPath) && !stdInline[name] {
+				// library code that is neither modelled as pure above nor inlined: assume it may change anything
+				all = true
+				return
+			}
 			if fc := x.DB.For(fn); fc != nil && fc.HasSpec() && !fc.AssignsAll && len(fc.Assigns) > 0 {
 				// contract with an explicit frame: `*param` clauses modify objects of the parameter's pointee type
 				// (which may live on its own or inside a slice backing array)
@@ -451,6 +460,9 @@ func (x *Exec) execLoopInvariant(fr *Frame, L *Loop, in []Edge, lc *LoopContract
 	for _, inv := range lc.Invariants {
 		t, err := env0.Bool(inv.Expr)
 		if err != nil {
+			if inv.Label == "default" && fr.Depth > 0 {
+				continue // the default invariant of the top function does not type-check in this helper: no invariant
+			}
 			return nil, fmt.Errorf("%s: invariant %s: %v", label, inv.Label, err)
 		}
 		x.C.AddObligation(label+"#inv-init:"+inv.Label, "inv-init", fnName, x.absPC(st0.PC), t, inv.Text)
@@ -461,9 +473,33 @@ func (x *Exec) execLoopInvariant(fr *Frame, L *Loop, in []Edge, lc *LoopContract
 	if all {
 		x.havocHeap(stH, "loop "+lc.Key)
 	} else {
+		type kept struct {
+			p PtrV
+			t Term
+		}
+		var keep []kept
+		for _, g := range x.stableGlobals() {
+			p := x.globalPtr(g)
+			if _, touched := regs[p.Region]; !touched {
+				continue
+			}
+			if v, err := x.Load(stH, p); err == nil {
+				if t, err := x.toTerm(v); err == nil {
+					keep = append(keep, kept{p, t})
+				}
+			}
+		}
 		for r, srt := range regs {
 			x.regionSort[r] = srt
 			stH.Heap[r] = x.C.Fresh("lh_"+r, srt)
+			x.oldWrites++
+		}
+		for _, k := range keep {
+			if v, err := x.Load(stH, k.p); err == nil {
+				if t, err := x.toTerm(v); err == nil {
+					x.C.Assume(Eq(t, k.t), "stable package variable keeps its value across loop iterations")
+				}
+			}
 		}
 		nb := x.C.Fresh("brk", SRef)
 		x.C.Assume(bvCmp("bvuge", nb, stH.Brk), "allocator monotone across loop iterations")
@@ -477,6 +513,9 @@ func (x *Exec) execLoopInvariant(fr *Frame, L *Loop, in []Edge, lc *LoopContract
 	for _, inv := range lc.Invariants {
 		t, err := envH.Bool(inv.Expr)
 		if err != nil {
+			if inv.Label == "default" && fr.Depth > 0 {
+				continue
+			}
 			return nil, fmt.Errorf("%s: invariant %s: %v", label, inv.Label, err)
 		}
 		x.C.Assume(Implies(x.absPC(stH.PC), t), "loop invariant "+inv.Label+" (induction hypothesis)")
@@ -519,6 +558,9 @@ func (x *Exec) execLoopInvariant(fr *Frame, L *Loop, in []Edge, lc *LoopContract
 		for _, inv := range lc.Invariants {
 			t, err := envB.Bool(inv.Expr)
 			if err != nil {
+				if inv.Label == "default" && fr.Depth > 0 {
+					continue
+				}
 				return nil, fmt.Errorf("%s: invariant %s: %v", label, inv.Label, err)
 			}
 			x.C.AddObligation(label+"#inv-keep:"+inv.Label, "inv-keep", fnName, x.absPC(stB.PC), t, inv.Text)
